@@ -16,7 +16,8 @@
    "Compression"), plus ScyllaDB's result-metadata-id extension of EXECUTE.
 
    Conventions: a byte string is a [list N] (Base/Bytes.v); Rust [&str]/[String] are their UTF-8
-   bytes (UTF-8 validity is a Rust type invariant and is not modelled); [usize] lengths are N;
+   bytes (well-formedness is a Rust type invariant: [text_ok] in [req_wf]; the specification parser
+   checks it on [string] / [long string]); [usize] lengths are N;
    i32/i64 fields are Z with their ranges stated in [req_wf]. *)
 From SV Require Import Base.Prelude Base.Bytes.
 From SV Require Model.Cql.     (* C01's model: used for utf8_valid (the specification of "UTF-8") and in PART 3 *)
